@@ -13,6 +13,8 @@ pub enum PathVal {
     Strp(u64),
     /// form, index  (strx=0x1a, strx1..4=0x25..0x28, GNU_str_index=0x1f02)
     Strx(u16, u64),
+    /// form, offset into the supplementary file's .debug_str  (strp_sup=0x1d, GNU_strp_alt=0x1f21)
+    StrpSup(u16, u64),
 }
 
 #[derive(Clone, Debug, PartialEq)]
@@ -66,7 +68,7 @@ fn write_path(w: &mut W, p: &PathVal, form: u16, format64: bool) {
         (PathVal::Inline(b), _) => {
             w.cstr(b);
         }
-        (PathVal::LineStrp(o), _) | (PathVal::Strp(o), _) => {
+        (PathVal::LineStrp(o), _) | (PathVal::Strp(o), _) | (PathVal::StrpSup(_, o), _) => {
             w.word(*o, format64);
         }
         (PathVal::Strx(f, i), _) => match *f {
@@ -95,6 +97,7 @@ pub fn path_form(p: &PathVal) -> u16 {
         PathVal::LineStrp(_) => FORM_LINE_STRP,
         PathVal::Strp(_) => FORM_STRP,
         PathVal::Strx(f, _) => *f,
+        PathVal::StrpSup(f, _) => *f,
     }
 }
 
